@@ -83,13 +83,13 @@ func VerifC17TextInput() {
 		exact = false
 		zzverif.Assert(m.cursor <= cur && len(m.content) == len(ideal)-(cur-m.cursor), "delete-word-removes-exactly-the-skipped-characters")
 		zzverif.Assert(verifStr(m.content) == verifStr(ideal[:m.cursor])+verifStr(ideal[cur:]), "delete-word-keeps-the-rest")
-	case 12: // bracketed paste of "pq"
+	case 12: // bracketed paste of a multi-codepoint grapheme and a letter: "e\u0301" "q"
 		m.Update(vaxis.PasteStartEvent{})
-		key(vaxis.Key{Keycode: 'p', Text: "p", EventType: vaxis.EventPaste})
+		key(vaxis.Key{Keycode: 'e', Text: "e\u0301", EventType: vaxis.EventPaste})
 		key(vaxis.Key{Keycode: 'q', Text: "q", EventType: vaxis.EventPaste})
 		m.Update(vaxis.PasteEndEvent{})
 		rest := append([]vaxis.Character{}, ideal[cur:]...)
-		ideal = append(append(ideal[:cur:cur], vaxis.Character{Grapheme: "p", Width: 1}, vaxis.Character{Grapheme: "q", Width: 1}), rest...)
+		ideal = append(append(ideal[:cur:cur], vaxis.Character{Grapheme: "e\u0301", Width: 1}, vaxis.Character{Grapheme: "q", Width: 1}), rest...)
 		cur += 2
 	case 13:
 		m.SetContent("zz")
